@@ -208,6 +208,9 @@ Definition validate (fx : fixes) (m : mstate) : Res unit :=
   if len (m_frames m) =? 0 then Err E_noframes else
   let animated := is_animated m in
   if (if animated then len (m_frames m) <? 1 else negb (len (m_frames m) =? 1)) then Err E_validate else
+  (* metadata held to the limit AddChunk enforces (commit after c14-mux-meta-size.diff) *)
+  if (olen (m_icc m) >? maxMetadataSize) || (olen (m_exif m) >? maxMetadataSize) || (olen (m_xmp m) >? maxMetadataSize)
+  then Err E_validate else
   let '(cw, ch) := canvas_size m in
   if fx_validate fx && ((cw >? MaxCanvasSize) || (ch >? MaxCanvasSize) || (cw * ch >=? MaxImageArea))
   then Err E_validate else
